@@ -26,10 +26,13 @@ GARBAGE_DECL = ['(x)', '[a]', '{a:b}', 'x(y)', 'x(y:1)', '$', '1px', '"s"', '#f0
                 'U+1F', '<!--', 'f(a;b)', '[;]', '{;}', '~=', 'url(x)', '100%', '--> x', '( ( ) [ ] )', 'x( "a;b" )', '\\;', '@@',
                 # a name followed by junk before the colon
                 'color 3: red', 'color "x" #f00: red !important', 'margin 50% 2px: 0', 'top $: 1px', 'left , : 0', 'x 1px 2px: 3px',
-                'color #fff: blue', 'top 1: 2', 'color: red: blue', 'color red', 'top:: 1px', ':top: 1px', 'a b: c']
+                'color #fff: blue', 'top 1: 2', 'color: red: blue', 'color red', 'top:: 1px', ':top: 1px', 'a b: c',
+                # identifiers whose value is a delimiter (hex escapes): they are no delimiters
+                '\\7b ', '\\7d ', '$ \\7b ', '(\\29 )', 'x(\\29 )', '\\3b  $', '[\\5d ]', '\\28  x', '$: \\7b ', 'x \\7d : 1', '\\5b  \\7b  \\28']
 GARBAGE_STMT = ['x(y){d:e}', '(y){d:e}', '[y]{d:e}', '$ {a:b}', 'a,,b{c:d}', 'a{{}}', '@unknown x;', '@unknown { a { b } }', '@import "late.css";',
                 '@charset "x";', '@namespace "late";', '1px{a:b}', '"s"{a:b}', '#{a:b}', '.{a:b}',
-                'a b c;', '@x (a;b) [c;d];', '@foo url() bar;', '@foo url( ) { a url() }', '@foo url("") bar;', '@import "x" print { x { y: 1 } }', '@import { "x" }', '@charset { a }', '@namespace p { "u" }', 'f(;){a:b}', '@page x x x { }', '@media {a{b:c}}', '@font-face;', 'a! {b:c}']
+                'a b c;', '@x (a;b) [c;d];', '@foo url() bar;', '@foo url( ) { a url() }', '@foo url("") bar;', '@import "x" print { x { y: 1 } }', '@import { "x" }', '@charset { a }', '@namespace p { "u" }', 'f(;){a:b}', '@page x x x { }', '@media {a{b:c}}', '@font-face;', 'a! {b:c}',
+                '@x \\7b ;', '@x \\7d  y;', '\\7b  x;', '$ \\28 {a:b}', 'a,,\\7b {c:d}', '@x \\5b  { \\7d  }', '@media \\7b {a{b:c}}']
 
 
 def parse(text):
